@@ -248,6 +248,17 @@ def build(run):
         yield "(q . n)('+') v('+')", dot(q, n)("+") * v("+")
         yield "div(q)('-') v('-')", div(q)("-") * v("-")
         yield "FacetArea * jump", C.FacetArea(msh) * jump(f) * jump(v)
+        # the restriction sits DIRECTLY on a terminal modifier (a component, a derivative component) rather than on the terminal or on a larger expression
+        yield "u[0]('-') * v('+')", u[0]("-") * v("+")
+        yield "(u[0]('+') - u[0]('-')) * v('+')", (u[0]("+") - u[0]("-")) * v("+")
+        yield "u[i]('+') * u[i]('-') * v('-')", u[i]("+") * u[i]("-") * v("-")
+        yield "h.dx(0)('-') * v('+')", h.dx(0)("-") * v("+")
+        yield "grad(u)[0, 1]('+') * v('-')", grad(u)[0, 1]("+") * v("-")
+        yield "grad(f)[1]('-') * f('+') * v('+')", grad(f)[1]("-") * f("+") * v("+")
+        yield "q[0]('+') * n[0]('+') * v('+')", q[0]("+") * n[0]("+") * v("+")
+        yield "n[1]('-') * x[0]('+') * v('-')", n[1]("-") * x[0]("+") * v("-")
+        yield "jump(u[1]) * avg(v)", jump(u[1]) * avg(v)
+        yield "grad(grad(h))[0, 1]('-') * v('+')", grad(grad(h))[0, 1]("-") * v("+")
         yield "MISSING restriction f*v('+')", f * v("+")
         yield "MISSING restriction n[0]*v('+')", n[0] * v("+")
         yield "DOUBLE restriction f('+')('-')", C.NegativeRestricted(C.PositiveRestricted(f)) * v("+")
